@@ -94,7 +94,7 @@ inductive Out where
   | changed (k : Kind) (to : List Send)
   | updated (uri : Nat) (to : List Send)
   | ack (sid id : Nat) (kinds : List Kind) (uris : List Nat)
-deriving Repr
+deriving Repr, DecidableEq
 
 inductive Label where
   | change (f : FSet) (e : Eff)
@@ -156,20 +156,28 @@ def put (l : List (Nat × Nat)) (sid id : Nat) : List (Nat × Nat) :=
 
 /-! ### the atomic sections -/
 
-def change (s : Server) (f : FSet) (e : Eff) : Server :=
-  if e = .noop ∨ (e = .remove ∧ s.cnt f = 0) then s else
-  let s1 : Server := { s with
+/-- The feature-set mutation itself (`change()` returned true): version and size move. -/
+def bumpVer (s : Server) (f : FSet) (e : Eff) : Server :=
+  { s with
     ver := fun f' => if f' = f then s.ver f + 1 else s.ver f',
     cnt := fun f' => if f' = f then (match e with | .add => s.cnt f + 1 | .remove => s.cnt f - 1 | _ => s.cnt f)
                      else s.cnt f' }
+
+/-- The body of `if change() && s.shouldSendListChangedNotification(n)`: stop-and-forget when no
+session is connected, otherwise create or reset the timer. -/
+def arm (s : Server) (k : Kind) : Server :=
+  if s.sessions = [] then setK s k (fun st => { st with tracked := none })
+  else { setK s k (fun st => { st with tracked := some (some (s.now + delay)) }) with
+         owed := s.owed ++ s.sessions.map (fun p => (p.1, k)) }
+
+def notifyChange (s : Server) (k : Kind) : Server := if gateSend s k then arm s k else s
+
+/-- `changeAndNotify`, one critical section under `Server.mu`. -/
+def change (s : Server) (f : FSet) (e : Eff) : Server :=
+  if e = .noop ∨ (e = .remove ∧ s.cnt f = 0) then s else
   match featureKind f with
-  | none => s1
-  | some k =>
-    if gateSend s1 k then
-      if s1.sessions = [] then setK s1 k (fun st => { st with tracked := none })
-      else { setK s1 k (fun st => { st with tracked := some (some (s1.now + delay)) }) with
-             owed := s1.owed ++ s1.sessions.map (fun p => (p.1, k)) }
-    else s1
+  | none => bumpVer s f e
+  | some k => notifyChange (bumpVer s f e) k
 
 def legacyRecips (s : Server) : List Send :=
   (s.sessions.filter (fun p => p.2 != .modern)).map (fun p => ⟨p.1, none⟩)
@@ -216,7 +224,7 @@ def listenOk (s : Server) (sid id : Nat) (kinds : List Kind) (uris : List Nat) :
     (l.id != id && kinds.all (fun k => !l.kinds.contains k) && uris.all (fun u => !l.uris.contains u)))
 
 def listen (s : Server) (sid id : Nat) (kinds : List Kind) (uris : List Nat) : Server × List Out :=
-  if (sid, Gen.modern) ∈ s.sessions ∧ listenOk s sid id kinds uris = true then
+  if (sid, Gen.modern) ∈ s.sessions ∧ listenOk s sid id kinds uris = true ∧ uris.Nodup then
     let ak := kinds.filter (gateListen s)
     let au := if resSub s then uris else []
     ({ s with
